@@ -66,6 +66,79 @@ def enc_vec(v):
 HCLASSES = {"sym": (False, True), "nonsym": (False, False), "herm": (True, True), "cgen": (True, False)}
 
 
+def fe_pencil(rng, mesh=None, freefree=False):
+    """K, M of a small 2-D mesh (AssembleStiffness / AssembleMass). `mesh` fixes everything but the densities, so that a
+    history can update the SAME sparse objects in place. freefree: no boundary conditions (K singular: rigid-body modes)."""
+    pm = _pm()
+    if mesh is None:
+        # the Krylov space of ARPACK (ncv = 20) must not be exhausted: enough distinct finite eigenvalues
+        mesh = {"nx": int(rng.integers(3, 5)), "ny": int(rng.integers(3, 5)), "lx": float(rng.uniform(0.7, 1.5)),
+                "ly": float(rng.uniform(0.7, 1.5)), "E": float(rng.uniform(0.8, 1.5)), "nu": float(rng.uniform(0.1, 0.4)),
+                "rho": float(rng.uniform(0.5, 2.0)), "freefree": bool(freefree)}
+        kwK = {} if rng.random() < 0.5 else {"bcdiagval": float(rng.uniform(200, 400))}
+        # mass matrix: bc rows with zero diagonal (the repo's own practice, B positive SEMI-definite: those modes are
+        # at infinity) or with a unit diagonal (B positive definite, modes at a large finite value)
+        kwM = {} if rng.random() < 0.5 else {"bcdiagval": 1.0}
+        if kwM and not kwK:   # keep the (repeated) boundary eigenvalue kd/1 far away from the requested modes
+            kwK = {"bcdiagval": float(rng.uniform(200, 400))}
+        mesh["kwK"], mesh["kwM"] = kwK, kwM
+    dom = pm.DomainDefinition(mesh["nx"], mesh["ny"], 0, mesh["lx"], mesh["ly"])
+    x = rng.uniform(0.3, 1.0, dom.nel)
+    sx = pm.Signal("x", x)
+    kwK, kwM = dict(mesh["kwK"]), dict(mesh["kwM"])
+    if mesh["freefree"]:
+        kwK, kwM = {}, {}
+    else:
+        nodes_left = [nn for nn in range(dom.nnodes) if nn % (dom.nelx + 1) == 0]
+        bc = np.array(sorted(d for nn in nodes_left for d in range(nn * 2, nn * 2 + 2)))
+        kwK["bc"], kwM["bc"] = bc, bc
+    with _Stub():
+        mK = pm.AssembleStiffness([sx], domain=dom, e_modulus=mesh["E"], poisson_ratio=mesh["nu"], **kwK)
+        mM = pm.AssembleMass([sx], domain=dom, material_property=mesh["rho"], ndof=2, **kwM)
+        mK.response()
+        mM.response()
+    A = np.asarray(mK.sig_out[0].state.todense())
+    B = np.asarray(mM.sig_out[0].state.todense())
+    return (A + A.T) / 2, (B + B.T) / 2, mesh
+
+
+def pick_sigma(rng, sk, ev, cplx, herm, freefree=False):
+    """shift of the given kind relative to the (real, sorted) reference spectrum `ev`; never closer than 30% of a gap to an
+    eigenvalue"""
+    def u(a, b):
+        return float(rng.uniform(a, b))
+    if freefree:   # rigid-body modes at 0: only a negative shift makes K - sigma M non-singular
+        elastic = ev[np.abs(ev) > 1e-8 * np.abs(ev).max()]
+        return -u(0.3, 1.0) * float(elastic[0])
+    if sk == "none":
+        return None
+    if sk == "zero":
+        return 0.0
+    gaps = [i for i in range(min(len(ev) - 1, 5)) if ev[i + 1] - ev[i] > 1e-3 * max(1.0, abs(ev[i]))]
+    i = gaps[int(rng.integers(0, len(gaps)))] if gaps else 0
+    inside = float(ev[i] + u(0.3, 0.45) * (ev[i + 1] - ev[i]))
+    if sk == "inside":
+        return inside
+    if sk == "negative":
+        cands = [min(float(ev[0]) - u(0.5, 2.0), -u(0.5, 2.0))]          # below the spectrum
+        for j in range(len(ev) - 1):                                     # between two negative eigenvalues (indefinite A)
+            if ev[j + 1] < -0.3 and ev[j + 1] - ev[j] > 0.3:
+                cands.append(float(ev[j] + u(0.3, 0.45) * (ev[j + 1] - ev[j])))
+        return cands[int(rng.integers(0, len(cands)))]
+    if sk == "above":
+        return float(ev[-1]) + u(0.5, 2.0)
+    if sk == "complex":   # only the non-Hermitian complex path (eigs) supports a complex shift
+        return complex(inside, u(0.2, 0.5)) if (cplx and not herm) else inside
+    raise ValueError(sk)
+
+
+def fmt_sigma(sg):
+    return "N" if sg is None else f"{sg:.3g}"
+
+
+SIGMAKINDS = ["none", "zero", "inside", "negative", "above", "complex"]
+
+
 def build_history(spec):
     rng = np.random.default_rng(spec["seed"])
     c = Case()
@@ -78,27 +151,48 @@ def build_history(spec):
     nsteps = int(rng.integers(3, 6))
     allherm = rng.random() < 0.2
     names = list(HCLASSES)
-    classes = spec.get("classes") or [str(rng.choice(["sym", "herm"] if allherm else names)) for _ in range(nsteps)]
+    # in place: the SAME ndarray / scipy sparse objects are overwritten between the responses (A[...] = newA,
+    # A.data[:] = newA.data), as an optimisation loop with preallocated matrices does; the dtype cannot change then
+    c.inplace = bool(spec.get("inplace", rng.random() < 0.4))
+    c.hfe = bool(spec.get("fe", False)) and sp
+    if c.hfe:
+        c.inplace, c.gen, allherm = True, True, True
+        names = ["sym"]
+    elif c.inplace:
+        names = ["sym", "nonsym"] if rng.random() < 0.6 else ["herm", "cgen"]
+    classes = spec.get("classes") or [str(rng.choice([k for k in names if HCLASSES[k][1]] if allherm else names)) for _ in range(nsteps)]
     if not allherm and len(set(HCLASSES[k][1] for k in classes)) == 1:   # make sure the Hermitian flag changes
-        classes[1] = "nonsym" if HCLASSES[classes[0]][1] else "sym"
+        other = [k for k in names if HCLASSES[k][1] != HCLASSES[classes[0]][1]]
+        classes[1] = other[0]
     allherm = all(HCLASSES[k][1] for k in classes)   # a user flag hermitian=True is admissible only then
     c.userherm = True if (allherm and rng.random() < 0.5) else None
     c.sorter = str(rng.choice(list(SORTERS)))
     c.nmodes = [None, 2, 3][int(rng.integers(0, 3))] if sp else None
     if c.nmodes is None and sp and c.n <= 8:
         c.nmodes = 3
-    c.sigma = [None, 0.0, float(int(rng.integers(1, 4)) + 0.5)][int(rng.integers(0, 3))] if sp else None
+    # shifts valid for every step (all spectra are k +- 0.2, k = 1..n): none / 0 / inside / below (negative) / above
+    c.sigma = ([None, 0.0, float(int(rng.integers(1, 4)) + 0.5), -float(rng.uniform(0.5, 2.5)), float(c.n + rng.uniform(0.5, 2.0))]
+               [spec.get("sigmaidx", int(rng.integers(0, 5)))] if sp else None)
+    if c.hfe:
+        c.sigma = [None, 0.0][int(rng.integers(0, 2))]
+        c.nmodes = [None, 3][int(rng.integers(0, 2))]
     c.fmt = str(rng.choice(["csc", "csr"]))
     c.steps = []
+    mesh = None
     for k, cl in enumerate(classes):
         cx, hm = HCLASSES[cl]
-        st = build({"stream": c.hstream, "seed": int(rng.integers(0, 2 ** 31)), "n": c.n, "cplx": cx, "herm": hm, "gen": c.gen,
-                    "sorter": c.sorter, "userherm": c.userherm, "nmodes": c.nmodes, "sigmakind": "none", "seedkind": "W"})
+        sub = {"stream": c.hstream, "seed": int(rng.integers(0, 2 ** 31)), "n": c.n, "cplx": cx, "herm": hm, "gen": c.gen,
+               "sorter": c.sorter, "userherm": c.userherm, "nmodes": c.nmodes, "sigmakind": "none", "seedkind": "W", "indef": False}
+        if c.hfe:
+            sub.update({"fe": True, "mesh": mesh})
+        st = build(sub)
+        mesh = st.mesh
+        c.n = st.n
         st.nmodes, st.sigma, st.fmt = c.nmodes, c.sigma, c.fmt
         st.name = f"step{k}.{cl}"
         c.steps.append(st)
-    c.name = (f"history.{c.hstream}.n{c.n}.{'gen' if c.gen else 'std'}.{'-'.join(classes)}.{c.sorter}.uh{c.userherm}."
-              f"k{c.nmodes}.sig{c.sigma}.s{spec['seed']}")
+    c.name = (f"history.{c.hstream}{'.fe' if c.hfe else ''}{'.inplace' if c.inplace else ''}.n{c.n}.{'gen' if c.gen else 'std'}."
+              f"{'-'.join(classes)}.{c.sorter}.uh{c.userherm}.k{c.nmodes}.sig{fmt_sigma(c.sigma)}.s{spec['seed']}")
     return c
 
 
@@ -120,36 +214,19 @@ def build(spec):
         n = spec.get("n") or int(rng.integers(2, 7))
     else:
         n = spec.get("n") or int(rng.integers(8, 15))
+    c.freefree = bool(spec.get("freefree", False))
+    c.mesh = None
     if c.stream == "sparse" and spec.get("fe"):
-        pm = _pm()
-        # the Krylov space of ARPACK (ncv = 20) must not be exhausted: enough distinct finite eigenvalues
-        nx, ny = int(rng.integers(3, 5)), int(rng.integers(3, 5))
-        dom = pm.DomainDefinition(nx, ny, 0, float(rng.uniform(0.7, 1.5)), float(rng.uniform(0.7, 1.5)))
-        nodes_left = [nn for nn in range(dom.nnodes) if nn % (dom.nelx + 1) == 0]
-        bc = np.array(sorted(d for nn in nodes_left for d in range(nn * 2, nn * 2 + 2)))
-        x = rng.uniform(0.3, 1.0, dom.nel)
-        sx = pm.Signal("x", x)
-        with _Stub():
-            kwK = {} if rng.random() < 0.5 else {"bcdiagval": float(rng.uniform(200, 400))}
-            # mass matrix: bc rows with zero diagonal (the repo's own practice, B positive SEMI-definite: those modes are
-            # at infinity) or with a unit diagonal (B positive definite, modes at a large finite value)
-            kwM = {} if rng.random() < 0.5 else {"bcdiagval": 1.0}
-            if kwM and not kwK:   # keep the (repeated) boundary eigenvalue kd/1 far away from the requested modes
-                kwK = {"bcdiagval": float(rng.uniform(200, 400))}
-            mK = pm.AssembleStiffness([sx], domain=dom, bc=bc, e_modulus=float(rng.uniform(0.8, 1.5)),
-                                      poisson_ratio=float(rng.uniform(0.1, 0.4)), **kwK)
-            mM = pm.AssembleMass([sx], domain=dom, bc=bc, material_property=float(rng.uniform(0.5, 2.0)), ndof=2, **kwM)
-            mK.response()
-            mM.response()
-        A = np.asarray(mK.sig_out[0].state.todense())
-        B = np.asarray(mM.sig_out[0].state.todense())
-        A, B = (A + A.T) / 2, (B + B.T) / 2
+        A, B, c.mesh = fe_pencil(rng, mesh=spec.get("mesh"), freefree=c.freefree)
         n = A.shape[0]
         cplx, herm, gen = False, True, True
         c.fe = True
         d = None
     else:
         d = np.arange(1, n + 1) * 1.0 + rng.uniform(-0.2, 0.2, n)
+        c.indef = bool(spec.get("indef", c.stream == "sparse" and rng.random() < 0.25))
+        if c.indef:   # indefinite A: eigenvalues at half-integers +-0.2 on both sides of zero
+            d = d - (n // 2 + 0.5)
         if herm:
             Qr, _ = np.linalg.qr(rn(n, n))
             A = Qr @ np.diag(d) @ Qr.conj().T
@@ -179,19 +256,12 @@ def build(spec):
             ev = scipy.linalg.eigvals(A, B)
         ev = np.sort(np.real(ev[np.isfinite(ev)]))
         c.refvals = ev
-        sk = spec.get("sigmakind", str(rng.choice(["none", "zero", "inside", "inside"])))
-        if sk == "none":
-            c.sigma = None
-        elif sk == "zero":
-            c.sigma = 0.0
-        else:
-            gaps = [i for i in range(min(len(ev) - 1, 5)) if ev[i + 1] - ev[i] > 1e-3 * max(1.0, abs(ev[i]))]
-            i = gaps[int(rng.integers(0, len(gaps)))] if gaps else 0
-            c.sigma = float(ev[i] + rng.uniform(0.3, 0.45) * (ev[i + 1] - ev[i]))
+        sk = spec.get("sigmakind", str(rng.choice(SIGMAKINDS)))
+        c.sigma = pick_sigma(rng, sk, ev, cplx, herm, c.freefree)
         c.fmt = str(rng.choice(["csc", "csr"]))
     c.seedkind = spec.get("seedkind", str(rng.choice(["both", "W", "Q", "partial"])))
     c.name = (f"{c.stream}{'.fe' if c.fe else ''}.n{n}.{'c' if cplx else 'r'}.{'herm' if herm else 'gen'}.{'gen' if gen else 'std'}."
-              f"{c.sorter}.uh{c.userherm}." + (f"k{c.nmodes}.sig{'N' if c.sigma is None else round(c.sigma, 3)}.{c.fmt}." if c.stream == "sparse" else "")
+              f"{c.sorter}.uh{c.userherm}." + (f"k{c.nmodes}.sig{fmt_sigma(c.sigma)}.{c.fmt}.{'indef.' if getattr(c, 'indef', False) else ''}{'freefree.' if c.freefree else ''}" if c.stream == "sparse" else "")
               + f"{c.seedkind}.s{spec['seed']}")
     return c
 
@@ -289,8 +359,10 @@ def run_impl(c):
                 m.sig_out[1].sensitivity = dQp.copy()
                 try:
                     m.sensitivity()
-                except RuntimeError as e:
-                    if "singular" in str(e):
+                except (RuntimeError, np.linalg.LinAlgError) as e:
+                    # the factorisation of the singular matrix A - lambda_i B may fail on an exactly singular pivot
+                    # (SuperLU: "Factor is exactly singular"; dense LDL without a B input: "Singular matrix"): boundary
+                    if "ingular" in str(e):
                         out["vecpasses"].append(None)
                         continue
                     raise
@@ -336,10 +408,31 @@ def run_history(c):
         warnings.simplefilter("ignore")
         m, sigs, isorts = make(c.steps[0])
         prev = None
+        objs = None
+        c.inplace_done = 0
         for st in c.steps:
-            sigs[0].state = conv(st.A)
-            if c.gen:
-                sigs[1].state = conv(st.B)
+            mats = [st.A] + ([st.B] if c.gen else [])
+            if c.inplace and objs is not None:
+                for i_, M in enumerate(mats):
+                    new = conv(M)
+                    o_ = objs[i_]
+                    if sp:
+                        if (new.dtype == o_.dtype and new.nnz == o_.nnz and np.array_equal(new.indices, o_.indices)
+                                and np.array_equal(new.indptr, o_.indptr)):
+                            o_.data[:] = new.data           # same scipy sparse object, new values
+                            c.inplace_done += 1
+                        else:
+                            objs[i_] = new
+                    elif new.dtype == o_.dtype:
+                        o_[...] = new                        # same ndarray object, new values
+                        c.inplace_done += 1
+                    else:
+                        objs[i_] = new
+                    sigs[i_].state = objs[i_]
+            else:
+                objs = [conv(M) for M in mats]
+                for i_, o_ in enumerate(objs):
+                    sigs[i_].state = o_
             with Recorder() as rec:
                 m.response()
             o = {"calls": rec.calls, "isort": isorts[-1], "W": np.array(m.sig_out[0].state), "Q": np.array(m.sig_out[1].state),
@@ -454,7 +547,8 @@ def reqs_for(c, out):
          "Asparse": sp, "Bsparse": None if c.B is None else sp}
     if sp:
         d.update({"modeNormal": True, "A": enc(c.A), "B": None if c.B is None else enc(c.B), "nmodes": c.nmodes,
-                  "sigma": None if c.sigma is None else q(float(c.sigma))})
+                  "sigma": None if c.sigma is None else ([q(float(np.real(c.sigma))), q(float(np.imag(c.sigma)))]
+                                                          if isinstance(c.sigma, complex) else q(float(c.sigma)))})
     r.append(("dispatch", d))
     raw = out["calls"][0]
     Wr, Qr = raw["W"], raw["Q"]
@@ -611,22 +705,38 @@ def specs(ctx):
     for cplx in (False, True):
         for herm in (False, True):
             for gen in (False, True):
-                for sk in ("none", "zero", "inside"):
-                    for _ in range(reps):
-                        out.append({"stream": "sparse", "seed": seed(), "cplx": cplx, "herm": herm, "gen": gen, "sigmakind": sk})
+                for sk in SIGMAKINDS:
+                    if sk == "complex" and (herm or not cplx):
+                        continue
+                    for indef in ((False, True) if sk in ("negative", "zero", "inside") else (False,)):
+                        for _ in range(reps):
+                            out.append({"stream": "sparse", "seed": seed(), "cplx": cplx, "herm": herm, "gen": gen, "sigmakind": sk,
+                                        "indef": indef})
     for _ in range(8 if ctx.quick else 80):
         out.append({"stream": "sparse", "seed": seed(), "fe": True})
+    # free-free structures: singular K (rigid-body modes), positive definite M, negative shift
+    for _ in range(4 if ctx.quick else 40):
+        out.append({"stream": "sparse", "seed": seed(), "fe": True, "freefree": True})
     for _ in range(10 if ctx.quick else 150):
         out.append({"stream": "sparse", "seed": seed()})
     # real symmetric sparse pencils: eigenvector-seed sensitivities (several passes after one response)
     for gen in (False, True):
-        for sk in ("none", "zero", "inside"):
+        for sk in ("none", "zero", "inside", "negative", "above"):
             for _ in range(2 if ctx.quick else 12):
                 out.append({"stream": "sparse", "seed": seed(), "cplx": False, "herm": True, "gen": gen, "sigmakind": sk})
     # histories on ONE module with changing matrix class
     for hs in ("dense", "sparse"):
         for _ in range(8 if ctx.quick else 80):
             out.append({"stream": "history", "seed": seed(), "hstream": hs})
+    # the SAME matrix objects updated in place between the responses (dense ndarray, scipy sparse, FE K and M)
+    for hs in ("dense", "sparse"):
+        for _ in range(5 if ctx.quick else 40):
+            out.append({"stream": "history", "seed": seed(), "hstream": hs, "inplace": True})
+    for sidx in (0, 1, 3, 4):
+        out.append({"stream": "history", "seed": seed(), "hstream": "sparse", "inplace": True, "sigmaidx": sidx})
+        out.append({"stream": "history", "seed": seed(), "hstream": "sparse", "inplace": False, "sigmaidx": sidx})
+    for _ in range(3 if ctx.quick else 20):
+        out.append({"stream": "history", "seed": seed(), "hstream": "sparse", "fe": True})
     out.append({"stream": "history", "seed": seed(), "hstream": "dense", "classes": ["sym", "nonsym", "herm", "cgen", "sym"]})
     out.append({"stream": "history", "seed": seed(), "hstream": "sparse", "classes": ["sym", "nonsym", "herm", "sym"]})
     return out
@@ -648,6 +758,8 @@ def run_specs(ctx, speclist):
                 if why:
                     ctx.oracle_fail(why, {"spec": sp, "name": c.name})
                 ctx.branch(f"history.{c.hstream}.{'gen' if c.gen else 'std'}")
+                if c.inplace:
+                    ctx.branch(f"history.inplace_updates.{c.hstream}{'.fe' if c.hfe else ''}", getattr(c, "inplace_done", 0))
                 items.append((c, outs, "history"))
                 reqs.append({"m": "c11.history", "user": c.userherm, "steps": [
                     {"Aherm": is_herm(st.A), "Bherm": None if st.B is None else is_herm(st.B), "sparse": c.hstream == "sparse"}
